@@ -6,7 +6,6 @@ CONSTANTS
   AliasTargets = {3}
   MaxNum = 2
   MaxOps = 6
-  Known = {"C20-1"}
 VIEW View
 ACTION_CONSTRAINT Emit
 CHECK_DEADLOCK FALSE
